@@ -90,7 +90,11 @@ def check_text(which, il_text, text_c, resolver, subinfo, **kw):
 def subroutine_issues(which, compiler, name, subinfo, resolver):
     """check the DEF text of a registered sub-routine stand-alone"""
     from rzilcompiler.Transformer.Hybrids.SubRoutine import SubRoutineInitType
-    text = compiler.get_sub_routine(name).il_init(SubRoutineInitType.DEF)
+    try:
+        text = compiler.get_sub_routine(name).il_init(SubRoutineInitType.DEF)
+    except Exception as e:
+        # the routine was accepted at registration: its definition must be printable
+        return [("definition-cannot-be-emitted", f"{type(e).__name__}: {str(e)[:120]}")]
     try:
         _, params, body = reader.parse_subroutine_def(text)
     except reader.ReadError as e:
